@@ -30,6 +30,11 @@ pub struct Rw {
     /// R18: lifted closure bodies: (fn name, key pattern, value pattern, body)
     pub lifted: Vec<(String, Pat, Pat, Block)>,
     pub fn_name: String,
+    /// R29: the enclosing fn returns Poll<Option<Result<..>>>: `?` is expanded to its FromResidual definition
+    pub try_in_poll_option: bool,
+    pub try_in_poll_result: bool,
+    /// R7: `let d = v.drain(..);` bindings seen, to be consumed by `d.collect()`
+    pub drains: Vec<(String, Expr)>,
 }
 
 const LOG_MACROS: &[&str] = &["error", "warn", "info", "debug", "trace"];
@@ -135,6 +140,9 @@ impl Rw {
             retain_captures: Vec::new(),
             lifted: Vec::new(),
             fn_name: String::new(),
+            try_in_poll_option: false,
+            try_in_poll_result: false,
+            drains: Vec::new(),
         }
     }
 
@@ -271,6 +279,16 @@ impl VisitMut for Rw {
                     if cfg_false(&l.attrs) {
                         self.log.push("R10 cfg-disabled statement dropped".into());
                         continue;
+                    }
+                    // R7: `let d = v.drain(..);` ... `d.collect()`  ->  vx_vec_take_all(&mut v)
+                    if let (Pat::Ident(pi), Some(init)) = (&l.pat, &l.init) {
+                        if let Expr::MethodCall(m) = &*init.expr {
+                            if m.method == "drain" && m.args.len() == 1 && matches!(&m.args[0], Expr::Range(r) if r.start.is_none() && r.end.is_none()) {
+                                self.drains.push((pi.ident.to_string(), (*m.receiver).clone()));
+                                self.log.push("R7 v.drain(..) binding folded into its collect()".into());
+                                continue;
+                            }
+                        }
                     }
                     keep.push(st);
                 }
@@ -557,6 +575,18 @@ impl VisitMut for Rw {
                 if name == "as_mut" && m.args.is_empty() && pinned_place {
                     self.log.push("R1 .as_mut() on pinned place".into());
                     Some((*m.receiver).clone())
+                } else if name == "collect" && m.args.is_empty() && matches!(&*m.receiver, Expr::Path(p) if p.path.get_ident().map_or(false, |i| self.drains.iter().any(|(n, _)| *n == i.to_string()))) {
+                    let id = if let Expr::Path(p) = &*m.receiver { p.path.get_ident().unwrap().to_string() } else { unreachable!() };
+                    let recv = self.drains.iter().find(|(n, _)| *n == id).unwrap().1.clone();
+                    Some(parse_quote!(vx_vec_take_all(&mut #recv)))
+                } else if name == "and_then" && m.args.len() == 1 && matches!(&m.args[0], Expr::Closure(c) if c.inputs.len() == 1) {
+                    // R21: Option::and_then(|x| E) -> match (its definition); the closure form is opaque to the proof
+                    let c = if let Expr::Closure(c) = &m.args[0] { c.clone() } else { unreachable!() };
+                    let pat = c.inputs[0].clone();
+                    let body = (*c.body).clone();
+                    let recv = (*m.receiver).clone();
+                    self.log.push("R21 Option::and_then(closure) -> match".into());
+                    Some(parse_quote!(match #recv { Some(#pat) => #body, None => None }))
                 } else if name == "as_pin_mut" {
                     m.method = Ident::new("as_mut", m.method.span());
                     self.log.push("R1 as_pin_mut -> as_mut".into());
@@ -575,11 +605,14 @@ impl VisitMut for Rw {
                     self.log.push("R16 constructor eta-expanded".into());
                     None
                 } else if let Some((_, to)) = self.method_maps.iter().find(|(f, _)| *f == format!("call:{name}")) {
-                    let callee: Path = parse_str(to.trim_start_matches("&*")).unwrap();
+                    let callee: Path = parse_str(to.trim_start_matches("&*").trim_start_matches("&mut ")).unwrap();
                     let recv = (*m.receiver).clone();
                     let args = m.args.clone();
                     self.log.push(format!("R8 method call .{name}() -> {to}()"));
-                    if to.starts_with("&*") {
+                    if to.starts_with("&mut ") {
+                        // the method's auto-ref of its receiver made explicit
+                        Some(parse_quote!(#callee(&mut #recv, #args)))
+                    } else if to.starts_with("&*") {
                         // the method's auto-deref of its receiver (String -> str) made explicit
                         Some(parse_quote!(#callee(&*#recv, #args)))
                     } else {
@@ -593,12 +626,25 @@ impl VisitMut for Rw {
                     None
                 }
             }
+            Expr::Try(t) if self.try_in_poll_option => {
+                // R29: `e?` in a fn returning Poll<Option<Result<_, E>>> (core's FromResidual impl for that type)
+                let inner = (*t.expr).clone();
+                self.log.push("R29 `?` inside Poll<Option<Result>> expanded".into());
+                Some(parse_quote!(match #inner { Ok(__v) => __v, Err(__e) => return Poll::Ready(Some(Err(From::from(__e)))) }))
+            }
+            Expr::Try(t) if self.try_in_poll_result => {
+                // R29: `e?` in a fn returning Poll<Result<_, E>>
+                let inner = (*t.expr).clone();
+                self.log.push("R29 `?` inside Poll<Result> expanded".into());
+                Some(parse_quote!(match #inner { Ok(__v) => __v, Err(__e) => return Poll::Ready(Err(From::from(__e))) }))
+            }
             Expr::Macro(m) => {
                 let name = macro_name(&m.mac);
                 if name == "ready" {
                     let mut inner: Expr = m.mac.parse_body().unwrap_or_else(|_| panic!("ready! body"));
                     self.visit_expr_mut(&mut inner);
                     m.mac.tokens = inner.to_token_stream();
+                    m.mac.path = parse_quote!(ready);
                     None
                 } else if LOG_MACROS.contains(&name.as_str()) {
                     self.check_log_args(&m.mac);
